@@ -46,6 +46,12 @@ def check_C17(ctx):
                b"print 08\nprint 1\n", b'print "\\q"\nprint 1 +\n', b"print 1e999\n", b"print @\nprint 1\n",
                b"print 1 \"unterminated\nprint 2\n", b"def b { print @ }\n", b"def a { def b { x = 1 +\n } }\nprint 1 +\n"]
     srcs += [("corner", c) for c in corners]
+    # ungrammatical assignments and separators (each must be rejected; the grammatical twin accepted)
+    for src in [b"var a = 1\nprint 1 + a = 2\n", b"var a = 1\neval -a = 1\n", b"var a = 1\neval not a = 1\n", b"var a = 1\nvar b = 2\neval a and b = 2\n",
+                b"def blk { x = 1 + y = 2 }\n", b"var a = 1\neval (a) = 2\n", b"var a = 1\neval a = 1 = 2\n", b"var a = 1\nvar b = 1\neval a = b = 2\n",
+                b"def b { x = 1;; y = 2 }\n", b"def b { print 1;; }\n", b"def a { def b {x=1};; }\n", b"print 1;; print 2\n", b"def b { x = 1; y = 2; }\n",
+                b"def b { ; }\n", b";\n", b"print 1;\n;\n", b"eval 1; 2\n", b"var port = 8080; port = 9090\n", b"print 1; )\nprint 2\n"]:
+        srcs.append(("corner", src))
     cases = [dict(id="g%d" % i, src=s, kind=k) for i, (k, s) in enumerate(srcs)]
     rs, missing, err = interp.run(ctx, cases)
     decide(ctx, rs, missing, err, {"log", "parts", "out"}, "C17_accepts_iff", "syntax", errclass_only=True)
@@ -105,6 +111,11 @@ def check_C20(ctx):
     for end, stops in [(b"\n", True), (b"\r", True), (b"\r\n", True), (b"\v", False), (b"\f", False), ("\u0085".encode(), False),
                        (" ".encode(), False), (b"\t", False), (b";", False), (b'"', False), (b"\\", False), (b"\\\n", True)]:
         direct.append((b"print 1 # c" + end + b"print 2\n", b"1\n2\n" if stops else b"1\n"))
+    for glued, want in [(b"print 42# answer\n", b"42\n"), (b"print 0x1f# hex\n", b"31\n"), (b"print 1.5# f\n", b"1.5\n"), (b'print "h"# s\n', b"h\n"),
+                        (b"var x = 7# v\nprint x# id\n", b"7\n"), (b"print (1)# p\n", b"1\n"), (b"print true# kw\n", b"true\n"),
+                        (b'def b "n"#c\n{ print NAME#c\n}#c\n', b"n\n"), (b"def t {}\nbind t:1# sel\n -> struct# tgt\nprint 1\n", b"1\n"),
+                        (b"print 1e3# e\n", b"1000\n"), (b"print 1 +# op\n 2\n", b"3\n")]:
+        direct.append((glued, want))
     direct.append((b'def b "x\ry" { print NAME + "|" }\r', b"x\ry|\n"))
     direct.append((b'var s = "p\rq"\rprint s\rprint "1\r2" + s\r', b"p\rq\n1\r2p\rq\n"))
     for i, (src, want) in enumerate(direct):
@@ -252,6 +263,14 @@ def check_C08(ctx):
             body = b"var a = 1\n\n# c " + enc + b"\nprint a\n" * 3 + bad
             ch_cases.append(dict(id="pg%d-%d-%d" % (k, len(enc), len(ch_cases)), name="f.bcl", src_hex=(pad + body).hex(),
                                  partitions=[[], [4096], [4095], [4097], [7], [1]]))
+    # the same with the character OUTSIDE comments and strings (an illegal character as a statement, NBSP / NEL as layout):
+    # the diagnostic names the character and its position whatever the cut inside it
+    for k, mb in itertools.product(range(0, 5), ["😀", "€", "é", "\u00a0", "\u0085", "\U0001F600x"]):
+        enc = mb.encode()
+        lead = b"# " + b"y" * (4096 - 3 - k) + b"\n"                       # the next line starts k bytes before offset 4096
+        for body in [b"print 1 " + enc + b"+ 2\nprint 3 +\n", enc + b"\nprint 4 +\n", b"def b { x = 1 " + enc + b" }\nprint 1/0\n"]:
+            ch_cases.append(dict(id="px%d-%d-%d" % (k, len(enc), len(ch_cases)), name="f.bcl", src_hex=(lead + body).hex(),
+                                 partitions=[[], [4096], [4095], [4097], [4094], [4093], [3], [1]]))
     cres, cmiss, cerr = ctx.probe("chunks", ch_cases, tag="pages", timeout=3000)
     for c in ch_cases:
         r = cres.get(c["id"])
@@ -354,6 +373,28 @@ def check_C19(ctx):
         for o in COMBOS:
             cases.append(dict(id="o%d/%s" % (i, o), src=p, opts=o, name=rng.choice(["input", "", "f.bcl"]) if False else "input"))
         cases[-len(COMBOS)]["seq"] = SEQ       # the plain case also executes ONE Prog under a sequence of option sets
+    # a writer on which every write fails: results must not depend on which introspection options are on
+    fcases = []
+    for i, p in enumerate(progs[:ctx.n(40, 400)] + progs[-8:]):
+        for o in ("F", "Fs", "Fd", "Ft", "Fdts"):
+            fcases.append(dict(id="fw%d/%s" % (i, o), src_hex=p.hex(), opts=o, name="input"))
+    fres, fmiss, ferr = ctx.probe("interp", fcases, tag="failw")
+    fby = {}
+    for c in fcases:
+        r = fres.get(c["id"])
+        if r:
+            fby.setdefault(c["id"].split("/")[0], {})[c["opts"]] = (c, r["obs"])
+    for k, d in fby.items():
+        if "F" not in d:
+            continue
+        b = d["F"][1]
+        for o, (c, ob) in d.items():
+            ctx.count(1, casehash(c["src_hex"], o))
+            if (ob["Class"], ob["Err"], ob["Blocks"], ob["Binding"], ob["Log"]) != (b["Class"], b["Err"], b["Blocks"], b["Binding"], b["Log"]):
+                ctx.violation("with an output writer that fails, options %r change the result / error of the run" % o[1:],
+                              dict(src_hex=c["src_hex"], src=bytes.fromhex(c["src_hex"])[:300].decode("utf8", "replace"), opts=o[1:]),
+                              impl=ob, model=b, theorem="C19_results_equal", key="opts-failing-writer")
+                break
     rs, missing, err = interp.run(ctx, cases)
     decide(ctx, rs, missing, err, {"outws", "blocks", "binding", "err", "log"}, "C19_results_equal", "opts", spec=False)
     by = {}
@@ -532,7 +573,30 @@ def check_C06(ctx):
             if p["class"] in ("panic", "hang"):
                 ctx.violation("ParseFile %s" % p["class"], dict(src_hex=c["src_hex"], sizes=p["sizes"]), impl=p,
                               theorem="C06_no_panic", key="parsefile-" + p["class"])
-    ctx.suite_stats["robust"] = dict(cases=len(cases), file_cases=len(fcases), class_disagreements=ndis,
+    # Unmarshal: nested blocks and scalars onto fields of every awkward kind (the error must be an error, never a panic)
+    from .p_bind import fld, INT, STR
+    T = lambda *fs: dict(k="struct", fields=list(fs))
+    odd = T(fld("Name", STR), fld("Opts", dict(k="slice", elem=STR)), fld("M", dict(k="map")), fld("P", dict(k="ptr", elem=dict(k="named", name="Inner"))),
+            fld("Int", INT), fld("Any", dict(k="iface")), fld("E", dict(k="ifaceN")), fld("Inner", dict(k="named", name="Inner"), emb=True))
+    ucases = []
+    for k, body in enumerate([b"def opts { a = 1 }", b"def m { a = 1 }", b"def p { deep = 1 }", b"def int { }", b"def any { x = 1 }", b"def e { }",
+                              b"def inner { deep = 2 }", b"opts = 1", b"m = nil", b"p = \"s\"", b"int = 1.5", b"deep = \"x\"", b"name = 5",
+                              b"def name { }", b"def opts \"n\" { }\n def opts \"m\" { }"]):
+        for bind in (b"bind t -> struct", b"bind t:all -> slice"):
+            src = b"def t \"x\" {\n " + body + b"\n}\n" + bind + b"\n"
+            ucases.append(dict(id="um%d%s" % (k, "s" if b"slice" in bind else ""), type=(dict(k="slice", elem=odd) if b"slice" in bind else odd),
+                               src_hex=src.hex(), prev=2))
+    ures, umissing, uerr = ctx.probe("unmarshal", ucases)
+    for cid in umissing[:2]:
+        ctx.violation("Unmarshal ended the probe process", dict(case=ctx.case_by_id.get(cid)), key="unmarshal-crash", theorem="C06_no_panic")
+    for c in ucases:
+        r = ures.get(c["id"])
+        if r:
+            ctx.count(1, casehash(c["src_hex"], json.dumps(c["type"], sort_keys=True)))
+            if r["class"] in ("panic", "hang"):
+                ctx.violation("Unmarshal %s: %s" % (r["class"], r.get("panic", "")[:200]), dict(src=bytes.fromhex(c["src_hex"]).decode(), type=c["type"]),
+                              impl=r, theorem="C06_no_panic", key="unmarshal-" + r["class"])
+    ctx.suite_stats["robust"] = dict(cases=len(cases), file_cases=len(fcases), class_disagreements=ndis, unmarshal_cases=len(ucases),
                                      kinds={"%s/%s" % k: v for k, v in sorted(kinds.items())})
     ctx.traces += len(rs) - ndis
     for k, s in srcs[:2] + srcs[-2:]:
@@ -544,6 +608,8 @@ def check_C06(ctx):
 # ---------------------------------------------------------------- C10
 def check_C10(ctx):
     from .p_dumpload import parse_parts
+    conc_progs = [b"".join(b"var v%d_%d = %d\n" % (k, i, i) for i in range(24)) + b"def b%d { x = v%d_3 + v%d_20\n var w = x\n y = w }\nprint v%d_23\n" % (k, k, k, k)
+                  for k in range(8)]
     ctx.build(["Proofs/TieVm.vo", "Proofs/TieFormat.vo", "Proofs/TieParse.vo", "Properties/C10.vo"], "Properties/C10.v")
     rng = random.Random(ctx.seed * 10007 + 10)
     g = Gen(rng, max_depth=5, allow_errors=0.02, small_floats=True)
@@ -602,6 +668,16 @@ def check_C10(ctx):
         else:
             nver += 1
     rejected = sum(1 for s, i, p in mut if vres.get(i) == "REJECTED")
+    # the compiler's bookkeeping is per parse: programs parsed concurrently compile to what they compile to alone
+    cres, cmissing, cerr = ctx.probe("concurrent", [dict(id="cc%d" % k, progs=[p.hex() for p in conc_progs], n=6) for k in range(ctx.n(3, 12))], tag="conc")
+    for cid in cmissing[:1]:
+        ctx.violation("concurrent parses ended the probe process", dict(progs=[p.decode()[:80] for p in conc_progs[:2]]), key="conc-crash", theorem="C10_parsed_verifies")
+    for r in cres.values():
+        ctx.count(len(conc_progs) * 6, r["id"])
+        if r["a_class"] != "ok" or r["a_diff"]:
+            ctx.violation("programs parsed concurrently differ from the same programs parsed alone (code, output or error): %s %s, %d differing runs" % (
+                r["a_class"], r.get("a_panic", "")[:200], r["a_diff"]), dict(progs=[p.decode()[:120] for p in conc_progs[:2]], goroutines=6 * len(conc_progs)),
+                impl=r, theorem="C10_parsed_verifies", key="conc-parse")
     ctx.suite_stats["wf"]["verified_programs"] = nver
     ctx.suite_stats["wf"]["damaged_code_rejected"] = "%d of %d" % (rejected, len(mut))
     ctx.traces += nver
